@@ -17,6 +17,10 @@ pub enum DnOp {
 	/// encode the name as it stands (in a CSR through a reference, or in a certificate made from a
 	/// clone) and go on editing the same object afterwards
 	Encode(bool),
+	/// write the name into a certificate, import that certificate and go on editing the imported
+	/// name object (which must enumerate like the model; if import itself changes the name that is
+	/// another property's subject and the history ends there)
+	Reimport,
 }
 
 #[derive(Clone, Debug, Serialize, Deserialize, PartialEq, Eq, Hash)]
@@ -104,6 +108,24 @@ fn interpret(ops: &[DnOp], alphabet: &[DnTypeSpec], check: bool) -> Result<(rcge
 	for (step, op) in ops.iter().enumerate() {
 		let dn = &mut params.distinguished_name;
 		match op {
+			DnOp::Reimport => {
+				let key = encode_key()?;
+				let cert = params.clone().self_signed(&key).map_err(|e| format!("step {step}: self_signed failed: {e}"))?;
+				match rcgen::CertificateParams::from_ca_cert_der(cert.der()) {
+					Ok(p) => {
+						let got: Vec<(rcgen::DnType, rcgen::DnValue)> = p.distinguished_name.iter().map(|(t, v)| (t.clone(), v.clone())).collect();
+						let want: Vec<(rcgen::DnType, rcgen::DnValue)> = model.iter().map(|(t, v)| (mk::dn_type(t), mk::dn_value(v).expect("valid"))).collect();
+						if got != want {
+							// import changed or re-typed something: C17's subject
+							return Ok((params.distinguished_name, model, interesting));
+						}
+						params.distinguished_name = p.distinguished_name;
+						interesting = true;
+					},
+					Err(_) => {},
+				}
+				continue;
+			},
 			DnOp::Encode(as_csr) => {
 				if !check {
 					continue;
@@ -273,6 +295,7 @@ fn op(n_types: u8) -> impl Strategy<Value = DnOp> {
 		6 => (0..n_types, gen::dn_value()).prop_map(|(t, v)| DnOp::Push(t, v)),
 		4 => (0..n_types).prop_map(DnOp::Remove),
 		1 => any::<bool>().prop_map(DnOp::Encode),
+		1 => Just(DnOp::Reimport),
 	]
 }
 
@@ -340,7 +363,7 @@ fn dense_history() -> BoxedStrategy<History> {
 pub fn def() -> PropertyDef {
 	PropertyDef {
 		id: "C20",
-		rule: "Operation sequences push(type, value) / remove(type) / encode (the name, which lives inside the CertificateParams it is encoded from, is written into a CSR through a reference or into a certificate from a clone, the decoded subject must be the model at that step, and editing goes on afterwards) interpreted against DistinguishedName and against a Vec<(type, value)> model, observed after every step (iter, get for every type of the alphabet, remove's return value, no duplicates), plus the equality relation against a second history (identical, extended, reversed, unrelated, or the same history with every text changed only in letter case or white space), a rebuilt name and a clone, plus the encoded order in a certificate. Bounded-exhaustive: every sequence up to length 5 (quick; 111 111) / 6 (thorough; 1 111 111) over 10 operations (3 types incl. a custom OID equal to a standard one x 2 values + 3 removes + encode); random: length <= 60 over 12 types (a quarter: 20..90 operations over 24 types, so that names of more than 16 attributes occur and shrink again) and all six value kinds; the final name is also encoded as subject and as issuer of certificates issued under / for another name by the same key. Non-trivial = the history contains a replace, a push of a previously removed type, or a second encode.",
+		rule: "Operation sequences push(type, value) / remove(type) / encode (the name, which lives inside the CertificateParams it is encoded from, is written into a CSR through a reference or into a certificate from a clone, the decoded subject must be the model at that step, and editing goes on afterwards) interpreted against DistinguishedName and against a Vec<(type, value)> model, observed after every step (iter, get for every type of the alphabet, remove's return value, no duplicates), plus the equality relation against a second history (identical, extended, reversed, unrelated, or the same history with every text changed only in letter case or white space), a rebuilt name and a clone, plus the encoded order in a certificate. Bounded-exhaustive: every sequence up to length 5 (quick; 111 111) / 6 (thorough; 1 111 111) over 10 operations (3 types incl. a custom OID equal to a standard one x 2 values + 3 removes + encode); random: length <= 60 over 12 types (a quarter: 20..90 operations over 24 types, so that names of more than 16 attributes occur and shrink again) and all six value kinds; the final name is also encoded as subject and as issuer of certificates issued under / for another name by the same key. Random and dense histories also contain re-import steps (the name is written into a certificate, the certificate imported, and editing continues on the imported name object). Non-trivial = the history contains a replace, a push of a previously removed type, a second encode, or a re-import.",
 		assumptions: vec!["the Vec model is the specification (insertion order since last absence, latest value)"],
 		subs: vec![
 			sweep_sub("exhaustive", exhaustive, check_history),
